@@ -669,7 +669,7 @@ theorem gate_v2_contract' {U : Univ} (nv : NoVariants U) (hU : WFH (toChain U)) 
     (cfg : Cfg) (q : Req) (r : BResp) (bs : List Nat) (h : gateBatch U cfg q r = .ok bs true) :
     LinkedFrom (toChain U) q.base bs ∧
     (∀ b ∈ bs, VT (toChain U) (par (toChain U) b) → (toChain U b).bodyOk = true) := by
-  obtain ⟨_, cp, _, _, _, hid, hc, _, _, _, _, hv⟩ := gateBatch_ok_true cfg q r bs h
+  obtain ⟨_, cp, _, _, _, _, hid, hc, _, _, _, _, hv⟩ := gateBatch_ok_true cfg q r bs h
   have hcp : cp.blk = q.base := by
     have : (U cp.blk).cid = (U q.base).cid := by simpa [sameId] using hid
     rwa [nv, nv] at this
